@@ -29,6 +29,17 @@ FILES = {
         "def today() -> date:\n    'Today.'\n"
         "def now(tz=None) -> datetime:\n    'Now.'\n"
     ),
+    # the re-exporting package binds a name the moved objects use to something ELSE: what they name are globals of the module
+    # they are written in
+    "rp/shapes/__init__.py": '"""Shapes."""\nfrom ._impl import Box, make\nfrom .other import Helper\n__all__ = ["Box", "make"]\n',
+    "rp/shapes/_impl.py": (
+        '"""Implementation."""\n'
+        "class Helper:\n    'The helper of the implementation.'\n"
+        "class Box:\n    'A box.'\n    tool: Helper = None\n"
+        "    def use(self, h: Helper) -> 'Helper':\n        'Use.'\n"
+        "def make(h: Helper) -> Box:\n    'Make.'\n"
+    ),
+    "rp/shapes/other.py": '"""Other."""\nclass Helper:\n    "Another helper."\n',
     "rp/user_old.py": '"""Names the defining module."""\nfrom rp._types import date\nimport rp._types\n'
                       "class Old:\n    'o'\n    born: date = None\n    def f(self, d: date) -> rp._types.datetime:\n        'f'\n",
     "rp/user_new.py": '"""Names the re-exporting package."""\nfrom rp import date as D\nimport rp\n'
@@ -44,6 +55,10 @@ EXPECT: List[Tuple[str, str, str, str]] = [
     ("rp.Span.html", "datetime", "datetime", "rp.datetime.html"),
     ("rp._types.html", "today", "date", "rp.date.html"),
     ("rp._types.html", "now", "datetime", "rp.datetime.html"),
+    ("rp.shapes.Box.html", "use", "Helper", "rp.shapes._impl.Helper.html"),
+    ("rp.shapes.Box.html", "tool", "Helper", "rp.shapes._impl.Helper.html"),
+    ("rp.shapes.html", "make", "Helper", "rp.shapes._impl.Helper.html"),
+    ("rp.shapes.html", "make", "Box", "rp.shapes.Box.html"),
     ("rp.user_old.Old.html", "f", "date", "rp.date.html"),
     ("rp.user_old.Old.html", "f", "rp._types.datetime", "rp.datetime.html"),
     ("rp.user_old.Old.html", "born", "date", "rp.date.html"),
